@@ -109,6 +109,9 @@ class FailedMapV(V):
                 else:
                     out.append(Ev(b, exc=ExcV("KeyError", [args[0]])))
             return out
+        if name == "clear":
+            self.rec(st)["mem"] = z3.K(Py, z3.BoolVal(False))
+            return [Ev(st, NONE)]
         raise OutOfReach("_failed_clients." + name)
 
 
@@ -160,6 +163,11 @@ class DeadMapV(V):
     def call_method(self, E, name, st, args, kwargs, fx, site):
         if name == "items":
             return [Ev(st, DeadItemsV(self))]
+        if name == "clear":
+            r = self.rec(st)
+            r["mem"] = z3.K(Py, z3.BoolVal(False))
+            r["n"] = z3.IntVal(0)
+            return [Ev(st, NONE)]
         raise OutOfReach("_dead_clients." + name)
 
 
